@@ -9,8 +9,9 @@
 //   - every step is a list of concrete operations (write/remove/rename a
 //     program file, mkdir, LoadAllPrograms, UnloadProgram, send a line, Gc);
 //   - a line is complete when the fan-out loop has reported `rt.line.recv`
-//     (with the number of handles it holds) and that many `vm.line.end`
-//     hook events for the line have been seen - never a sleep;
+//     (it then holds handleMu.RLock), a Lock/Unlock barrier on handleMu has
+//     passed (the line was offered to every handle) and as many `vm.line.end`
+//     as `rt.line.sent` hook events for the line have been seen - never a sleep;
 //   - after every step the observation (store projection, prog_* counter
 //     deltas, handles, a real Prometheus scrape through promhttp, the
 //     rt.load.*/rt.unload hook events of the step) is compared with the
@@ -51,7 +52,7 @@ import (
 
 // Op is one concrete operation of a step.
 type Op struct {
-	Op   string `json:"op"` // write rm mv mkdir loadall unload line gc
+	Op   string `json:"op"` // write rm mv mkdir loadall loadprog unload line gc
 	File string `json:"file,omitempty"`
 	To   string `json:"to,omitempty"`
 	Src  string `json:"src,omitempty"`
@@ -73,6 +74,8 @@ type Case struct {
 	Scope string   `json:"scope"` // "" = compare everything, "loaded" = store/series of running programs only
 	Steps []Step   `json:"steps"`
 	Dump  bool     `json:"dump,omitempty"` // output every observation (probing / replay files)
+	// OmitSource runs the runtime with the OmitMetricSource option (Metric.Source = "")
+	OmitSource bool `json:"omit_source,omitempty"`
 }
 
 // LV is one label value of a metric.
@@ -411,7 +414,11 @@ func runCase(c *Case) map[string]interface{} {
 	store := metrics.NewStore()
 	lines := make(chan *logline.LogLine)
 	var wg sync.WaitGroup
-	r, err := runtime.New(lines, &wg, dir, store)
+	var opts []runtime.Option
+	if c.OmitSource {
+		opts = append(opts, runtime.OmitMetricSource())
+	}
+	r, err := runtime.New(lines, &wg, dir, store, opts...)
 	if err != nil {
 		vh.Fatal("runtime.New: %v", err)
 	}
@@ -475,8 +482,24 @@ func runCase(c *Case) map[string]interface{} {
 				if err := r.LoadAllPrograms(); err != nil {
 					vh.Fatal("LoadAllPrograms: %v", err)
 				}
+			case "loadprog":
+				if err := r.LoadProgram(filepath.Join(dir, op.File)); err != nil {
+					vh.Fatal("LoadProgram: %v", err)
+				}
 			case "unload":
-				r.UnloadProgram(filepath.Join(dir, op.File))
+				// UnloadProgram of a name without a handle dereferences nil: never provoke it,
+				// record the disagreement with the model as an event instead
+				has := false
+				for _, h := range r.VerifC14Handles() {
+					has = has || h.Name == op.File
+				}
+				if has {
+					r.UnloadProgram(filepath.Join(dir, op.File))
+				} else {
+					e.mu.Lock()
+					e.evs = append(e.evs, verifhook.Event{Ev: "rt.unload_without_handle", KV: []interface{}{"prog", op.File}})
+					e.mu.Unlock()
+				}
 			case "gc":
 				if err := store.Gc(); err != nil {
 					vh.Fatal("Gc: %v", err)
@@ -486,12 +509,20 @@ func runCase(c *Case) map[string]interface{} {
 				nline++
 				text := op.Text + " #" + strconv.Itoa(nline)
 				lines <- logline.New(context.Background(), "verif.log", text)
+				// 1. the fan-out loop has the line and holds handleMu.RLock (rt.line.recv)
 				e.mu.Lock()
 				for {
-					n, ok := e.recvN[text]
-					if ok && e.sentN[text] == n && e.endN[text] == n {
+					if _, ok := e.recvN[text]; ok {
 						break
 					}
+					e.cond.Wait()
+				}
+				e.mu.Unlock()
+				// 2. it has released the lock again: the line was offered to every handle it meant to
+				r.VerifC14Barrier()
+				// 3. every VM that took the line has finished it (vm.line.end)
+				e.mu.Lock()
+				for e.endN[text] < e.sentN[text] {
 					e.cond.Wait()
 				}
 				e.mu.Unlock()
